@@ -61,30 +61,33 @@ def run(ctx):
                         "tlc_verdict": verdicts[t["tid"]][1]})
     ctx.extra["traces_per_family"] = fam_count
     # 3. binding self-checks
-    good = next(t for t in traces if t["family"] == "ctr" and verdicts[t["tid"]][1] == "ok" and any(e["samples"] for e in t["events"]))
+    good = ctx.pick(traces, lambda t: t["family"] == "ctr" and verdicts[t["tid"]][1] == "ok" and any(e["samples"] for e in t["events"]), "ctr key stream")
 
     def corrupt_ks(t):
         for e in t["events"]:
             if e["samples"]:
                 e["samples"][0]["ks"][0] ^= 1
                 return t
-    _selfcheck(ctx, "CounterTrace", None, good, corrupt_ks, "ctr: one bit of a key stream block")
-    good2 = next(t for t in traces if t["family"] == "ctr" and verdicts[t["tid"]][1] == "ok" and any(e["exc"] == "OverflowError" for e in t["events"]))
+    if good is not None:
+        _selfcheck(ctx, "CounterTrace", None, good, corrupt_ks, "ctr: one bit of a key stream block")
+    good2 = ctx.pick(traces, lambda t: t["family"] == "ctr" and verdicts[t["tid"]][1] == "ok" and any(e["exc"] == "OverflowError" for e in t["events"]), "ctr overflow")
 
     def hide_overflow(t):
         for e in t["events"]:
             if e["exc"] == "OverflowError":
                 e["exc"] = "none"
                 return t
-    _selfcheck(ctx, "CounterTrace", None, good2, hide_overflow, "ctr: overflow error replaced by success")
-    good3 = next(t for t in traces if t["family"] == "chacha" and verdicts[t["tid"]][1] == "ok" and any(e.get("samples") for e in t["events"]))
+    if good2 is not None:
+        _selfcheck(ctx, "CounterTrace", None, good2, hide_overflow, "ctr: overflow error replaced by success")
+    good3 = ctx.pick(traces, lambda t: t["family"] == "chacha" and verdicts[t["tid"]][1] == "ok" and any(e.get("samples") for e in t["events"]), "chacha key stream")
 
     def corrupt_cha(t):
         for e in t["events"]:
             if e.get("samples"):
                 e["samples"][0]["ks"][-1] ^= 0x80
                 return t
-    _selfcheck(ctx, "CounterTrace", None, good3, corrupt_cha, "chacha: one bit of the key stream")
+    if good3 is not None:
+        _selfcheck(ctx, "CounterTrace", None, good3, corrupt_cha, "chacha: one bit of the key stream")
     ctx.rule = ("request-length and seek classes enumerated by TLC from obj/CtrCounter and obj/ChaChaStream (4 calls, every class "
                 "combination; seed-dependent sample biased to histories that cross the limit) scaled to real MODE_CTR objects "
                 "(AES and 3DES, counter_len 1..2 (3 in thorough), random prefix/suffix split, both endiannesses, initial values at and "
